@@ -5,6 +5,9 @@ import (
 	"fmt"
 	"os"
 
+	"verif/checks/c04"
+	"verif/checks/c05"
+	"verif/checks/c06"
 	"verif/checks/c09"
 	"verif/engine/core"
 	"verif/gen/keys"
@@ -16,6 +19,9 @@ type check struct {
 }
 
 var checks = map[string]check{
+	"C04": {"exploration", c04.Run},
+	"C05": {"exploration", c05.Run},
+	"C06": {"exploration", c06.Run},
 	"C09": {"exploration", c09.Run},
 }
 
